@@ -17,6 +17,7 @@ OptAlpha   == << [n |-> "Host", v |-> "OPTHOST"], [n |-> "X-A", v |-> "oa"], [n 
 OptAlphaBig == OptAlpha \o << [n |-> "X-C", v |-> "oc2"] >>
 
 Both     == {TRUE, FALSE}
+NoModes  == {}
 OnlyOff  == {FALSE}
 
 \* present-but-empty entry values (the second one is a blank), names the option list also defines
@@ -64,5 +65,51 @@ NoURIs       == {}
 ExtraBig     == {"/a%2Fb/c;p=1/", "/dbl//slash/../x/./y", "/p|q/r?x=a|b"}
 BodiesOne    == {"k=v&x=%20 two {\"j\":[1,2]}"}
 
+\* ---- RFC 3986 request-targets in a spelling of their own (seeded C09-10: the class the URI alphabet lacked) ----
+\* piece = [raw (spelling in the ammo), norm (decode + Go's default re-escape; negative control only), class (RFC 3986)]
+Pc(raw, norm, class) == [raw |-> raw, norm |-> norm, class |-> class]
+Same(raw, class) == Pc(raw, raw, class)
+PlainSeg == Same("api", "unreserved")
+\* an empty segment; as the FIRST segment the target begins with "//": still origin-form (RFC 7230: absolute-path =
+\* 1*( "/" segment )), a path - not a network-path reference naming a host
+EmptySeg == Same("", "unreserved")
+TargetPieces == {
+    Pc("Products(1)", "Products%281%29", "sub-delims"),          \* ( ) - OData keys
+    Pc("Items('a')", "Items%28%27a%27%29", "sub-delims"),        \* '
+    Pc("a%2Fb", "a/b", "pct-encoded"),                           \* an encoded slash is not a path separator
+    Pc("c%3Fd%23e", "c%3Fd%23e", "pct-encoded"),                 \* encoded ? and #
+    Pc("%2f%3a%40", "/:@", "pct-encoded"),                       \* lower-case hex
+    Pc("x%7Ey%2Dz", "x~y-z", "pct-encoded"),                     \* encoded unreserved characters stay encoded
+    Pc("*", "%2A", "sub-delims"),
+    Pc("x!y", "x%21y", "sub-delims"),
+    Same("100%25", "pct-encoded"),                               \* an encoded percent sign
+    Same("a%20b+c", "pct-encoded"),
+    Same("k=v;p=1,2", "sub-delims"),                             \* path parameters
+    Same("u:p@h$&", "colon-at"),
+    Pc("%e4%b8%ad%E6%96%87", "%E4%B8%AD%E6%96%87", "pct-encoded"), \* UTF-8, mixed hex case
+    Same("", "unreserved") }                                     \* an empty segment ("//" inside the path)
+NoQuery == [raw |-> "", norm |-> "", class |-> "none"]
+TargetQueries == {
+    [raw |-> "?", norm |-> "", class |-> "none"],                \* a bare "?": the empty query is part of the target
+    [raw |-> "?x=1&y=%20z", norm |-> "?x=1&y=%20z", class |-> "pct-encoded"],
+    [raw |-> "?q=%26%3D%23%2f&r=(1)'*!", norm |-> "?q=%26%3D%23%2f&r=(1)'*!", class |-> "sub-delims"],
+    [raw |-> "?a=/p/q?&b?", norm |-> "?a=/p/q?&b?", class |-> "slash-qmark"] }
+Tg(segs, q) == [segs |-> segs, query |-> q]
+\* quick: every piece as the last and as an inner segment, every query form after a plain and after an encoded path
+TargetsQuick == {Tg(<<PlainSeg, p>>, NoQuery) : p \in TargetPieces}
+           \cup {Tg(<<p, PlainSeg>>, q) : p \in TargetPieces, q \in {[raw |-> "?", norm |-> "", class |-> "none"]}}
+           \cup {Tg(<<EmptySeg, PlainSeg>>, NoQuery), Tg(<<EmptySeg, EmptySeg, PlainSeg>>, NoQuery),
+                 Tg(<<EmptySeg, Pc("a%2Fb", "a/b", "pct-encoded")>>, NoQuery),      \* "//" followed by what could not be a host
+                 Tg(<<EmptySeg, Same("host.test:8080", "colon-at"), PlainSeg>>, [raw |-> "?x=1&y=%20z", norm |-> "?x=1&y=%20z", class |-> "pct-encoded"])}
+           \cup {Tg(<<PlainSeg>>, q) : q \in TargetQueries}
+           \cup {Tg(<<Pc("a%2Fb", "a/b", "pct-encoded"), Same("", "unreserved")>>, q) : q \in TargetQueries}
+\* thorough: + pieces x queries, pairs of pieces
+TargetsBig == TargetsQuick
+           \cup {Tg(<<PlainSeg, p>>, q) : p \in TargetPieces, q \in TargetQueries}
+           \cup {Tg(<<p1, p2>>, NoQuery) : p1 \in TargetPieces, p2 \in TargetPieces}
+NoTargets == {}
+\* negative controls only need a witness: a small slice of the space keeps their JVMs cheap
+OneURI == {"/"}
+TargetsFew == {Tg(<<PlainSeg, Pc("Products(1)", "Products%281%29", "sub-delims")>>, NoQuery), Tg(<<PlainSeg>>, [raw |-> "?", norm |-> "", class |-> "none"])}
 
 =============================================================================
